@@ -7,6 +7,7 @@ import (
 	"go/ast"
 	"go/token"
 	"go/types"
+	"os"
 	"sort"
 	"strings"
 
@@ -1092,5 +1093,9 @@ func (ex *Exec) havocMap(st *State, mt *types.Map, r *Term) {
 func (ex *Exec) mapLookupPure(st *State, mt *types.Map, r, k *Term) Value {
 	pres := And(Neq(r, BVi(0, 32)), ex.mapPresent(st, mt, r, k))
 	v := ex.mapGet(st, mt, r, k)
+	// what is stored in a map of a Go heap is well-formed (references designate allocated objects)
+	if os.Getenv("VERIF_MAPWF") != "" {
+		st.assume(Implies(pres, st.wf(v)))
+	}
 	return iteValue(pres, v, zeroValue(mt.Elem()))
 }
